@@ -1073,6 +1073,10 @@ def nonzero(a):
     return where(asarray(a) != 0)
 
 
+def flatnonzero(a):
+    return where(asarray(a).ravel())[0]
+
+
 def argmax(a, axis=None):
     v = _obj(a).flatten()
     if len(v) and isinstance(v[0], (bool, SymBool)):
